@@ -100,10 +100,17 @@ pub fn king_cache_ok(g: &Game, white: bool) -> bool {
     adapt::code_of(g.board[adapt::sq(p)]) == spec::code(spec::K, white)
 }
 
-/// WF2s / WF2h at one square
-pub fn cache_ok_at(g: &Game, s: usize, eg: bool) -> bool {
-    let c = adapt::code_of(g.board[s]);
-    g.past_scores[s] == adapt::want_score(s, c, eg) && g.past_hashes[s] == spec::key(s, c)
+/// WF2s / WF2h at one square, stated through the leaf functions Piece::hash / Piece::score (whose own
+/// contracts -- piece_hash_is_published_key, piece_score_is_table_value in c_piece.rs -- equate them
+/// with the published key and the specified piece-square value).  Phrasing the invariant through the
+/// callee keeps the solver from having to relate two different constant tables bit by bit.
+pub fn cache_ok_at(g: &Game, s: usize, _eg: bool) -> bool {
+    let pos = mk::pos_of(s);
+    let (want_h, want_s) = match g.board[s] {
+        Some(pc) => (pc.hash(pos), pc.score(pos, &g.piece_scores)),
+        None => (zobrist::EMPTY_PLACE, 0),
+    };
+    g.past_hashes[s] == want_h && g.past_scores[s] == want_s
 }
 
 /// squares a move touches (at most 4; unused slots repeat the first)
@@ -218,3 +225,313 @@ pub fn push_contract_castling_long() {
     let (v, want) = push_contract(4);
     vcover!(v.castle[0] && v.castle[1] && !want.castle[0] && !want.castle[1], "white castling loses both rights");
 }
+
+// =================================================================================================
+// Game::pop after Game::push  (C03) -- take-back restores everything
+// =================================================================================================
+
+/// Shape of every move the generator can emit, checked or unchecked -- in particular captures of the
+/// enemy KING are allowed here (the search plays them).
+pub fn generated_shape(v: &spec::View, m: &Move) -> bool {
+    let w = v.white_to_move;
+    let b = &v.board;
+    if !adapt::fields_consistent(b, w, m) { return false; }
+    match adapt::smove_of(m) {
+        // (king steps next to the enemy king are pruned by the generator, so a king never captures a king;
+        //  without this, pop's transient "two kings of one colour" overflows the i16 score in checked builds)
+        spec::SMove::Normal { from, to } => from != to && spec::owned_by(b[from], w) && !spec::owned_by(b[to], w)
+            && !(spec::kind(b[from]) == spec::K && spec::kind(b[to]) == spec::K),
+        spec::SMove::Promo { from, to, .. } => from != to && b[from] == spec::code(spec::P, w) && !spec::owned_by(b[to], w),
+        spec::SMove::EnPassant { from, to } => b[from] == spec::code(spec::P, w) && b[to] == spec::EMPTY
+            && b[(from / 8) * 8 + to % 8] == spec::code(spec::P, !w),
+        spec::SMove::CastleShort => { let r = if w { 0 } else { 56 }; v.castle[if w { 0 } else { 2 }] && b[r + 5] == 0 && b[r + 6] == 0 }
+        spec::SMove::CastleLong => { let r = if w { 0 } else { 56 }; v.castle[if w { 1 } else { 3 }] && b[r + 1] == 0 && b[r + 2] == 0 && b[r + 3] == 0 }
+    }
+}
+
+/// which group of postconditions a round-trip harness asserts (the groups partition the contract;
+/// one SAT query per group keeps each query small -- the whole conjunction did not finish in 30 min)
+#[derive(Clone, Copy, PartialEq, Eq)]
+pub enum Part { All, Board, Keys, Scores, Score, Hash }
+
+/// Contract: for every game satisfying WF (locally: WF1 for the mover's king, WF2 at the touched
+/// squares, WF5, WF6, score bound) and every move of generated shape,
+///     pop(push(g, m), m) == g     on EVERY field:
+/// board, cached keys and scores (at an arbitrary square j), hash, score, king cache, side, stack
+/// length, every state entry, evaluation tables.
+fn roundtrip_contract(kind: u8, part: Part) -> (spec::View, Move) {
+    let eg = nd::bool();
+    let mut g = mk::sym_game(1, eg);
+    let m = sym_move(kind);
+    let j = mk::sym_sq();
+    let v = adapt::view_of(&g);
+    nd::assume(v.ep <= 8);
+    nd::assume(wf6(&v));
+    nd::assume(generated_shape(&v, &m));
+    nd::assume(-SCORE_BOUND <= g.score && g.score <= SCORE_BOUND);
+    let t = touched(&m);
+    nd::assume(cache_ok_at(&g, t[0], eg) && cache_ok_at(&g, t[1], eg) && cache_ok_at(&g, t[2], eg) && cache_ok_at(&g, t[3], eg));
+    // WF1 for the mover: the cache points at the mover's only king
+    nd::assume(king_cache_ok(&g, v.white_to_move) && spec::count(&v.board, spec::code(spec::K, v.white_to_move)) == 1);
+    let (hash0, score0, kp0, side0) = (g.hash, g.score, g.king_positions, g.current_player);
+    let (bj, phj, psj) = (g.board[j], g.past_hashes[j], g.past_scores[j]);
+    let below0 = super::gamestate::verif_gamestate::bits(g.state[0]);
+    let top0 = gs_bits(&g);
+    #[cfg(not(kani))]
+    eprintln!("position: {}\nmove: {}", adapt::show_view(&v), adapt::show_move(&m));
+
+    g.push(m);
+    g.pop(m);
+
+    if part == Part::All || part == Part::Board {
+        assert!(g.board[j] == bj, "C03: take-back did not restore the board");
+        assert!(g.king_positions == kp0, "C03: take-back did not restore the king locations");
+        assert!(g.current_player == side0, "C03: take-back did not restore the side to move");
+        assert!(g.state.len() == 2, "C03: take-back did not restore the game length");
+        assert!(super::gamestate::verif_gamestate::bits(g.state[0]) == below0 && gs_bits(&g) == top0, "C03: take-back did not restore the state stack");
+        assert!(adapt::endgame_table_in_force(&g) == eg, "C03: push/pop changed the evaluation tables");
+    }
+    if part == Part::All || part == Part::Keys { assert!(g.past_hashes[j] == phj, "C03: take-back did not restore a cached square key"); }
+    if part == Part::All || part == Part::Scores { assert!(g.past_scores[j] == psj, "C03: take-back did not restore a cached square score"); }
+    if part == Part::All || part == Part::Score { assert!(g.score == score0, "C03: take-back did not restore the score"); }
+    if part == Part::All || part == Part::Hash { assert!(g.hash == hash0, "C03: take-back did not restore the hash"); }
+    (v, m)
+}
+
+macro_rules! rt_harness { ($name:ident, $kind:expr, $part:expr, |$v:ident, $m:ident| $cov:block) => {
+    #[cfg_attr(kani, kani::proof)] #[cfg_attr(verif_replay, test)]
+    pub fn $name() { let ($v, $m) = roundtrip_contract($kind, $part); $cov }
+} }
+macro_rules! rt_normal { ($name:ident, $part:expr) => { rt_harness!($name, 0, $part, |v, m| {
+    vcover!(matches!(m, Move::Normal { captured_piece: Some(Piece { piece_type: PieceType::King, .. }), .. }), "capturing the enemy king reachable");
+    vcover!(matches!(m, Move::Normal { piece: Piece { piece_type: PieceType::King, .. }, .. }) && v.castle[0], "king move with rights reachable");
+}); } }
+rt_normal!(roundtrip_normal_board, Part::Board);
+rt_normal!(roundtrip_normal_keys, Part::Keys);
+rt_normal!(roundtrip_normal_scores, Part::Scores);
+rt_normal!(roundtrip_normal_score, Part::Score);
+rt_normal!(roundtrip_normal_hash, Part::Hash);
+macro_rules! rt_promo { ($name:ident, $part:expr) => { rt_harness!($name, 1, $part, |_v, m| {
+    vcover!(matches!(m, Move::Promotion { captured_piece: Some(_), new_piece: PieceType::Knight, .. }), "under-promotion capture reachable");
+}); } }
+rt_promo!(roundtrip_promotion_board, Part::Board);
+rt_promo!(roundtrip_promotion_keys, Part::Keys);
+rt_promo!(roundtrip_promotion_scores, Part::Scores);
+rt_promo!(roundtrip_promotion_score, Part::Score);
+rt_promo!(roundtrip_promotion_hash, Part::Hash);
+rt_harness!(roundtrip_enpassant, 2, Part::All, |v, _m| { vcover!(!v.white_to_move, "black e.p. reachable"); });
+rt_harness!(roundtrip_castling_short, 3, Part::All, |v, _m| { vcover!(!v.white_to_move, "black short castling reachable"); });
+rt_harness!(roundtrip_castling_long, 4, Part::All, |v, _m| { vcover!(v.white_to_move, "white long castling reachable"); });
+
+// =================================================================================================
+// push / pop against the CONTRACT of set_position (modular step for the hash and the score)
+// =================================================================================================
+
+/// Abstract callee standing for Game::set_position in the harnesses below: it performs the one
+/// effect of the contract that the rest of push/pop can observe (board[p] := new) and leaves
+/// hash, score and both caches alone.  set_position_contract proves that the real function changes
+/// (hash, past_hashes[p]) and (score, past_scores[p]) only so that  hash ^ XOR past_hashes  and
+/// score - SUM past_scores  are preserved, and nothing else.
+pub fn set_position_board_only(g: &mut Game, position: Position, new_place: Option<Piece>) {
+    g.board[position.as_usize()] = new_place;
+}
+
+/// Outside their set_position calls, push and pop touch the hash only by the side key and the keys of
+/// the old and new top state, and never touch score or the caches:
+///   push: hash' = hash ^ SIDE ^ key(top) ^ key(top'),   pop: exactly undoes it.
+/// With set_position's contract this gives WF3/WF4 preservation (C04, C16) and, together with the
+/// restoration of board and caches, the restoration of hash and score (C03).
+fn hash_score_delta_contract(kind: u8) {
+    let mut g = mk::sym_game(1, false);
+    let m = sym_move(kind);
+    let j = mk::sym_sq();
+    let v = adapt::view_of(&g);
+    nd::assume(v.ep <= 8);
+    nd::assume(generated_shape(&v, &m));
+    let (hash0, score0, phj, psj) = (g.hash, g.score, g.past_hashes[j], g.past_scores[j]);
+    let top0 = *g.state.last().unwrap();
+    g.push(m);
+    let top1 = *g.state.last().unwrap();
+    assert!(g.hash == hash0 ^ zobrist::BLACK_TO_MOVE ^ top0.hash() ^ top1.hash(),
+            "C04: push changes the hash (outside set_position) by something other than side key and the two state keys");
+    assert!(g.score == score0 && g.past_hashes[j] == phj && g.past_scores[j] == psj, "C16/C04: push touches score or caches outside set_position");
+    g.pop(m);
+    assert!(g.hash == hash0, "C03/C04: pop does not undo push's side/state key toggles");
+    assert!(g.score == score0 && g.past_hashes[j] == phj && g.past_scores[j] == psj, "C16/C04: pop touches score or caches outside set_position");
+    vcover!(super::gamestate::verif_gamestate::bits(top0) != super::gamestate::verif_gamestate::bits(top1), "state change reachable");
+}
+macro_rules! delta_harness { ($name:ident, $kind:expr) => {
+    #[cfg_attr(kani, kani::proof)]
+    #[cfg_attr(kani, kani::stub(Game::set_position, set_position_board_only))]
+    #[cfg_attr(verif_replay, test)]
+    pub fn $name() { hash_score_delta_contract($kind) }
+} }
+delta_harness!(delta_normal, 0);
+delta_harness!(delta_promotion, 1);
+delta_harness!(delta_enpassant, 2);
+delta_harness!(delta_castling_short, 3);
+delta_harness!(delta_castling_long, 4);
+
+// =================================================================================================
+// Game::update_phase / Game::is_endgame  (C03, C16: caches stay consistent with the tables in force)
+// =================================================================================================
+
+#[cfg(kani)]
+static mut ENDGAME_ORACLE: bool = false;
+/// abstract callee for is_endgame (its own contract: is_endgame_contract)
+#[cfg(kani)]
+pub fn is_endgame_oracle(_g: &Game) -> bool { unsafe { ENDGAME_ORACLE } }
+
+/// Contract of update_phase: whatever is_endgame answers,
+///   * WF2s is preserved: for every square j, past_scores[j] is the value of board[j] under the tables
+///     IN FORCE AFTER the call (both kings valued by the same table),
+///   * WF4 is preserved: score - SUM past_scores unchanged (checked as: score changes by exactly the
+///     change of the two kings' cached values),
+///   * position, hash and cached keys are untouched, the king table is only ever switched to END.
+#[cfg_attr(kani, kani::proof)]
+#[cfg_attr(kani, kani::stub(Game::is_endgame, is_endgame_oracle))]
+#[cfg_attr(verif_replay, test)]
+pub fn update_phase_contract() {
+    let eg = nd::bool();
+    let mut g = mk::sym_game(0, eg);
+    let j = mk::sym_sq();
+    #[cfg(kani)]
+    unsafe { ENDGAME_ORACLE = nd::bool(); }
+    let v = adapt::view_of(&g);
+    nd::assume(v.ep <= 8);
+    // WF1: the caches point at the only king of each side
+    nd::assume(king_cache_ok(&g, true) && king_cache_ok(&g, false));
+    nd::assume(spec::count(&v.board, spec::K) == 1 && spec::count(&v.board, spec::K | spec::BLACK) == 1);
+    let (wk, bk) = (adapt::sq(g.king_positions[0]), adapt::sq(g.king_positions[1]));
+    // WF2 at the two king squares and at an arbitrary square j
+    nd::assume(cache_ok_at(&g, wk, eg) && cache_ok_at(&g, bk, eg) && cache_ok_at(&g, j, eg));
+    nd::assume(-SCORE_BOUND <= g.score && g.score <= SCORE_BOUND);
+    let (hash0, score0, kp0) = (g.hash, g.score, g.king_positions);
+    let (pwk0, pbk0) = (g.past_scores[wk] as i32, g.past_scores[bk] as i32);
+    #[cfg(not(kani))]
+    eprintln!("position: {}  (score cache consistent, king table: {})", adapt::show_view(&v), if eg { "END" } else { "MIDDLE" });
+
+    g.update_phase();
+
+    let eg1 = adapt::endgame_table_in_force(&g);
+    assert!(!eg || eg1, "update_phase switched the king table back to MIDDLE");
+    assert!(cache_ok_at(&g, j, eg1), "C16/C03: after update_phase a cached square score is stale w.r.t. the tables in force (kings valued by different tables)");
+    assert!(g.score as i32 - score0 as i32 == (g.past_scores[wk] as i32 - pwk0) + (g.past_scores[bk] as i32 - pbk0),
+            "C16: update_phase breaks score == SUM of cached square scores");
+    let v1 = adapt::view_of(&g);
+    assert!(v1.board[j] == v.board[j] && v1.white_to_move == v.white_to_move && v1.castle == v.castle && v1.ep == v.ep, "update_phase changed the position");
+    assert!(g.hash == hash0 && g.king_positions == kp0 && g.state.len() == 1, "update_phase changed hash / king cache / stack");
+    vcover!(!eg && eg1, "switching to the endgame table reachable");
+}
+
+/// Contract of is_endgame: true iff the sum of |piece-square value| over the board is below
+/// 2 * ENDGAME_THRESHOLD; no overflow for any board with at most 32 pieces.
+#[cfg_attr(kani, kani::proof)]
+#[cfg_attr(kani, kani::unwind(65))]
+#[cfg_attr(verif_replay, test)]
+pub fn is_endgame_contract() {
+    let eg = nd::bool();
+    let g = mk::sym_game(0, eg);
+    let b = adapt::board_of(&g);
+    let mut total: u32 = 0;
+    let mut s = 0;
+    while s < 64 { total += (adapt::want_score(s, b[s], eg) as i32).unsigned_abs(); s += 1; }
+    assert!(g.is_endgame() == (total < 2 * scores::ENDGAME_THRESHOLD), "is_endgame is not `total piece value below twice the threshold`");
+    vcover!(total < 2 * scores::ENDGAME_THRESHOLD && total > 40000, "endgame with two kings reachable");
+}
+
+/// Native witness for D1 (run by ./verify replay on findings/D1-*.json, or by hand): an endgame loaded
+/// from text; generating moves must not change the score.
+#[cfg_attr(verif_replay, test)]
+pub fn witness_d1_endgame_score_drift() {
+    let mut g = Game::new("8/8/8/4k3/8/8/8/4K3 w - - 0 1").unwrap();
+    let before = g.score();
+    let mut moves = ArrayVec::new();
+    g.get_moves(&mut moves, true);
+    assert!(g.score() == before, "C03/C16: generating moves changed the score of an endgame loaded from text: {} -> {}", before, g.score());
+}
+
+// =================================================================================================
+// Zobrist key tables (C04, C05)
+// =================================================================================================
+
+/// C04: the engine's key constants are the published key-file entries: side key at byte 0, empty-square
+/// key at byte 1, state key i at 2 + 8 i, piece key at 259 + 8 (12 sq + p)  (constant evaluation).
+#[cfg_attr(kani, kani::proof)]
+#[cfg_attr(kani, kani::unwind(257))]
+#[cfg_attr(verif_replay, test)]
+pub fn keys_tables_match_published_layout() {
+    assert!(zobrist::BLACK_TO_MOVE == spec::le64(0), "C04: side key is not the key-file entry at offset 0");
+    assert!(zobrist::EMPTY_PLACE == spec::le64(1), "C04: empty-square key is not the key-file entry at offset 1");
+    let mut i = 0;
+    while i < 256 { assert!(zobrist::STATE[i] == spec::le64(2 + 8 * i), "C04: a state key is not the key-file entry at 2 + 8 i"); i += 1; }
+    let mut s = 0;
+    while s < 64 {
+        let mut p = 0;
+        while p < 12 { assert!(zobrist::PIECE[s][p] == spec::le64(259 + 8 * (12 * s + p)), "C04: a piece key is not the key-file entry at 259 + 8 (12 sq + p)"); p += 1; }
+        s += 1;
+    }
+}
+
+pub fn start_view() -> spec::View {
+    let mut b = [0u8; 64];
+    let back = [spec::R, spec::N, spec::B, spec::Q, spec::K, spec::B, spec::N, spec::R];
+    let mut f = 0;
+    while f < 8 { b[f] = back[f]; b[8 + f] = spec::P; b[48 + f] = spec::P | spec::BLACK; b[56 + f] = back[f] | spec::BLACK; f += 1; }
+    spec::View { board: b, white_to_move: true, castle: [true; 4], ep: 8 }
+}
+
+/// C04: the published keys combine to D9C54592621D7040 for the standard start position
+#[cfg_attr(kani, kani::proof)]
+#[cfg_attr(kani, kani::unwind(65))]
+#[cfg_attr(verif_replay, test)]
+pub fn spec_start_position_hash() {
+    assert!(spec::hash_of(&start_view()) == 0xD9C54592621D7040, "C04: key file entries for the start position do not combine to D9C54592621D7040");
+}
+
+/// C05: changing the content of one square changes that square's key (12 pieces + empty, pairwise
+/// distinct on every square); stated on the engine's own leaf functions.
+#[cfg_attr(kani, kani::proof)]
+#[cfg_attr(verif_replay, test)]
+pub fn c05_square_keys_distinct() {
+    let s = mk::sym_sq();
+    let (a, b) = (mk::sym_place(), mk::sym_place());
+    nd::assume(a != b);
+    let pos = mk::pos_of(s);
+    let ka = match a { Some(p) => p.hash(pos), None => zobrist::EMPTY_PLACE };
+    let kb = match b { Some(p) => p.hash(pos), None => zobrist::EMPTY_PLACE };
+    assert!(ka != kb, "C05: two different contents of a square share a key");
+    vcover!(a.is_none() && s == 63, "empty vs piece on h8 reachable");
+}
+
+/// C05: side key non-zero; two states differing in any castling right or in the e.p. file (0..=8) have
+/// different keys.
+#[cfg_attr(kani, kani::proof)]
+#[cfg_attr(verif_replay, test)]
+pub fn c05_state_and_side_keys_distinct() {
+    assert!(zobrist::BLACK_TO_MOVE != 0, "C05: the side key is zero");
+    let (a, b) = (nd::u8(), nd::u8());
+    nd::assume(a != b && (a & 15) <= 8 && (b & 15) <= 8);
+    let (sa, sb) = (super::gamestate::verif_gamestate::mk(a), super::gamestate::verif_gamestate::mk(b));
+    assert!(sa.hash() != sb.hash(), "C05: two different castling/e.p. states share a key");
+    vcover!(a == 0x18 && b == 0x08, "one right of difference reachable");
+}
+
+/// native (test, not proof): Game::default().hash() is the documented constant and every pairwise XOR
+/// of two keys is distinct (=> any two positions differing in at most two features hash differently)
+#[cfg_attr(verif_replay, test)]
+pub fn native_start_hash_and_pairwise_xor() {
+    assert!(Game::default().hash() == 0xD9C54592621D7040, "C04: Game::default().hash() != D9C54592621D7040");
+    let mut keys: Vec<u64> = vec![zobrist::BLACK_TO_MOVE, zobrist::EMPTY_PLACE];
+    keys.extend_from_slice(&zobrist::STATE);
+    for s in 0..64 { keys.extend_from_slice(&zobrist::PIECE[s]); }
+    assert!(keys.len() == 1026);
+    let mut xors = std::collections::HashSet::new();
+    for i in 0..keys.len() { for j in (i + 1)..keys.len() { assert!(xors.insert(keys[i] ^ keys[j]), "C05: two pairs of keys have the same XOR"); } }
+    assert!(!xors.contains(&0));
+}
+
+#[path = "c_moves.rs"]
+pub mod moves;
+#[path = "instances.rs"]
+pub mod inst;
